@@ -15,7 +15,7 @@
    identifier-headed statements on which the command-call rule stays silent is not proved. *)
 From Coq Require Import List NArith ZArith Bool.
 Import ListNotations.
-From V Require Import Base.Prelude Gen.Tokens Model.C14 Proofs.C14Tables Proofs.C14Unf Proofs.C14Aux Proofs.C14.
+From V Require Import Base.Prelude Gen.Tokens Model.C14 Proofs.C14Tables Proofs.C14Unf Proofs.C14Aux Proofs.C14 Proofs.C14Fuel.
 Local Open Scope Z_scope.
 
 (* ---------------------------------------------------------------- token tables *)
@@ -61,6 +61,22 @@ Theorem C14_stmt_conservative_refuted :
   exists ts s, parse_stmt go_dialect ts = Parsed s /\ define_ok s /\ parse_stmt xgo_dialect ts <> Parsed s.
 Proof. exact stmt_cmd_refuted. Qed.
 
+(* ---------------------------------------------------------------- totality of the model *)
+(* every successful step only consumes tokens; the operand-parsing states consume at least one *)
+Theorem C14_results_shrink : forall d f st ts r rest,
+  P d f st ts = POk r rest -> (length rest <= length ts)%nat /\ (strict st = true -> (length rest < length ts)%nat).
+Proof. exact P_len. Qed.
+
+(* 6*|tokens| + rank + 1 units of fuel are enough from every state, in every dialect *)
+Theorem C14_enough_fuel : forall d f st ts, (need st ts <= f)%nat -> P d f st ts <> PFuel.
+Proof. exact enough_fuel. Qed.
+
+(* hence the two entry points never run out of fuel: the core of the parser terminates *)
+Theorem C14_parse_expr_total : forall d ts, parse_expr d ts <> NoFuel.
+Proof. exact parse_expr_total. Qed.
+Theorem C14_parse_stmt_total : forall d ts, parse_stmt d ts <> NoFuel.
+Proof. exact parse_stmt_total. Qed.
+
 (* ---------------------------------------------------------------- non-vacuity *)
 Example C14_example_call_blank :
   let ts := [tk xgo_IDENT false; tk xgo_LPAREN true; tk xgo_IDENT false; tk xgo_RPAREN false] in
@@ -99,3 +115,7 @@ Print Assumptions C14_xgo_parse_conservative.
 Print Assumptions C14_stmt_conservative_nocmd_partial.
 Print Assumptions C14_stmt_conservative_nonident_partial.
 Print Assumptions C14_stmt_conservative_refuted.
+Print Assumptions C14_results_shrink.
+Print Assumptions C14_enough_fuel.
+Print Assumptions C14_parse_expr_total.
+Print Assumptions C14_parse_stmt_total.
